@@ -320,6 +320,8 @@ func augmentOverlayFile(file *ast.File, overrides map[string]overrideInfo) {
 			file.Decls[i] = nil
 		}
 	}
+	// The blank identifier declares nothing, so it never overrides anything.
+	delete(overrides, "_")
 	if anyChange {
 		finalizeRemovals(file)
 		pruneImports(file)
